@@ -460,6 +460,11 @@ def run(prop, mod, tier, seed, replay, evidence_path, t0):
         gen_cases = mod.gen(tier, seed)
         cases = corpus + gen_cases
         outs, corr_bad, prop_bad = evaluate(prop, mod, cases, "main")
+        if os.environ.get("VERIF_DUMP"):
+            dump = [{"i": i, "corr_bad": i in corr_bad, "prop_bad": i in prop_bad,
+                     "desc": mod.describe(cases[i]) if hasattr(mod, "describe") else {},
+                     "case": cases[i], "out": outs[i]} for i in sorted(set(corr_bad) | set(prop_bad))[:400]]
+            (BUILD / f"dump_{prop}.json").write_text(json.dumps(dump, indent=1, default=str))
         known = load_known(prop)
         # known findings: replay each recorded input
         kcases = [k["case"] for k in known if "case" in k]
